@@ -23,6 +23,18 @@ Theorem C13_fullfact_bijective : forall (T : Type) (fl : list (list T)), fl <> [
     (Forall (@NoDup T) fl -> NoDup rows).
 Proof. exact (@fullfact_bijective). Qed.
 
+(* row q of the full factorial (index matrix / level values) is the mixed-radix representation of q, first factor
+   fastest: the closed form through which the correspondence compares sampled rows of designs too big to write out *)
+Theorem C13_fullfact_row_closed_form : forall (levels : list nat) (q : nat), levels <> [] -> q < prod_list levels ->
+  exists x, fullfact levels = Ok x /\ length x = prod_list levels /\ nth_error x q = Some (digits levels q).
+Proof. exact fullfact_row_closed_form. Qed.
+
+Theorem C13_build_full_fact_row_closed_form : forall (T : Type) (fl : list (list T)) (q : nat),
+  fl <> [] -> q < prod_list (map (@length T) fl) ->
+  exists rows r, build_full_fact fl = Ok rows /\ length rows = prod_list (map (@length T) fl) /\
+                 select_row (digits (map (@length T) fl) q) fl = Ok r /\ nth_error rows q = Some r.
+Proof. exact (@build_full_fact_row_closed_form). Qed.
+
 (* ------------------------------------------------------------------ Plackett-Burman -- *)
 (* every supported size: run count = next multiple of four above n, entries -1/+1, balanced and
    pairwise orthogonal columns (pb_spec) *)
@@ -103,6 +115,8 @@ Proof. exact (@gsd_generate_subset). Qed.
 
 Print Assumptions C13_fullfact_index_bijective.
 Print Assumptions C13_fullfact_bijective.
+Print Assumptions C13_fullfact_row_closed_form.
+Print Assumptions C13_build_full_fact_row_closed_form.
 Print Assumptions C13_pb_structure.
 Print Assumptions C13_pb_rejects.
 Print Assumptions C13_pb_levels.
